@@ -561,6 +561,33 @@ var earlier struct {
 
 type clobber struct{}
 
+// perturb returns a copy of v in which every scalar differs from the original.
+func perturb(v any) any {
+	switch v := v.(type) {
+	case []any:
+		out := make([]any, len(v))
+		for i, x := range v {
+			out[i] = perturb(x)
+		}
+		return out
+	case map[string]any:
+		out := make(map[string]any, len(v))
+		for k, x := range v {
+			out[k] = perturb(x)
+		}
+		return out
+	case float64:
+		return v + 7000.5
+	case int64:
+		return v/2 + 7001
+	case string:
+		return v + "~"
+	case bool:
+		return !v
+	}
+	return v
+}
+
 func runExecPure(p *path.Path, doc any, vars map[string]any, c *execCase, docB, varsB []byte) J {
 	var before string
 	stateProbe := c.Cancel == nil && vars != nil && (c.Entry == "exists" || c.Entry == "match" || c.Entry == "eom")
@@ -599,9 +626,13 @@ func runExecPure(p *path.Path, doc any, vars map[string]any, c *execCase, docB, 
 			if !bytes.Equal(docB, marshal(encItem(doc))) || !bytes.Equal(varsB, marshal(encVars(vars))) || !spareOK(doc) || !spareOK(any(vars)) {
 				return J{"out": "result-aliases-input", "what": "writing to the returned slice changed the document or the variables"}
 			}
-			earlier.items, earlier.enc = keep, enc1
+			// a call on other data must not reach into r1 (buffers handed on from call to call)
+			_, _ = plainQuery(p, perturb(doc), vars, c, true)
+			if !bytes.Equal(enc1, marshal(encItem(maskIDs(any(r1))))) {
+				return J{"out": "earlier-result-changed", "what": "the slice returned by a Query changed during a call on another document"}
+			}
 			_ = keep
-			earlier.items = r1
+			earlier.items, earlier.enc = r1, enc1
 		}
 	}
 	if c.Cancel == nil && (c.Entry == "query" || c.Entry == "first") && strings.Contains(c.Path, "keyvalue") && !kvBelowGenerated(p.AST.Root()) {
@@ -672,9 +703,30 @@ func runExecPure(p *path.Path, doc any, vars map[string]any, c *execCase, docB, 
 			}
 		}
 		walk(doc)
-		if len(maps) > 0 {
+		// twice: a member added, then a member renamed (the member count stays what it was)
+		for pass := 0; pass < 2 && len(maps) > 0; pass++ {
+			type undo struct {
+				m   map[string]any
+				k   string
+				v   any
+				had bool
+			}
+			var undos []undo
 			for _, m := range maps {
-				m["k_added"] = int64(7)
+				if pass == 1 && len(m) > 0 {
+					first := ""
+					for k := range m {
+						if first == "" || k < first {
+							first = k
+						}
+					}
+					undos = append(undos, undo{m, first, m[first], true})
+					m["k_added"] = m[first]
+					delete(m, first)
+				} else {
+					m["k_added"] = int64(7)
+				}
+				undos = append(undos, undo{m, "k_added", nil, false})
 			}
 			i1, e1 := plainQuery(p, doc, vars, c, true)
 			i2, e2 := plainQuery(p, deepCopy(doc), vars, c, true)
@@ -682,8 +734,12 @@ func runExecPure(p *path.Path, doc any, vars map[string]any, c *execCase, docB, 
 			if e1 == nil && e2 == nil {
 				b1, b2 = marshal(encItem(zeroIDs(any(i1)))), marshal(encItem(zeroIDs(any(i2))))
 			}
-			for _, m := range maps {
-				delete(m, "k_added")
+			for _, u := range undos {
+				if u.had {
+					u.m[u.k] = u.v
+				} else {
+					delete(u.m, u.k)
+				}
 			}
 			if (e1 == nil) != (e2 == nil) || !bytes.Equal(b1, b2) {
 				return J{"out": "stale-view-of-an-edited-object"}
@@ -1090,7 +1146,7 @@ func execStream(args []string) int {
 			ow.Write(marshal(res))
 			ow.WriteByte('\n')
 		}
-		if *cancel && *prof == "grid-big" {
+		if *cancel && strings.HasPrefix(*prof, "grid-big") {
 			// big documents: the polls of a long loop are sampled (first, middle, the last one, one past it)
 			for i, es := range [][2]any{{"query", false}, {"exists", true}, {"first", grp%2 == 0}, {"match", grp%2 == 1}} {
 				if i >= 2 && (grp+i)%2 == 0 {
@@ -1101,7 +1157,7 @@ func execStream(args []string) int {
 					continue
 				}
 				seen := map[int]bool{}
-				for j, k := range []int{0, polls / 2, polls - 1, polls} {
+				for j, k := range []int{0, 1, polls / 4, polls / 2, polls * 3 / 4, polls - 2, polls - 1, polls} {
 					if k < 0 || seen[k] {
 						continue
 					}
@@ -1138,7 +1194,11 @@ func execStream(args []string) int {
 				}
 			}
 		} else {
-			if *prof == "grid-big" {
+			if *prof == "grid-bigcore" {
+				emit("query", grp%4 == 1, nil, "")
+				emit("exists", grp%4 == 2, nil, "")
+				emit([]string{"first", "match", "eom"}[grp%3], grp%2 == 0, nil, "")
+			} else if *prof == "grid-big" {
 				// big documents: four of the ten entry/option combinations, rotating
 				combos := [][2]any{{"query", false}, {"exists", grp%2 == 0}, {"first", true}, {"match", grp%2 == 1}, {"query", true}}
 				for i := 0; i < 3; i++ {
